@@ -282,7 +282,16 @@ func ruleChangeDataUsed(c *core.Ctx) {
 	for _, d := range c.AllDecls() {
 		pp := c.DeclPkg(d)
 		rw := directRW(pp.TypesInfo, d.Body)
+		// a function that fills a change struct is its comparer: what it reads back of the
+		// same struct while building it is bookkeeping, not a consumer of the change
+		fills := map[string]bool{}
+		for k := range rw.writes {
+			fills[k.typ] = true
+		}
 		for k, pos := range rw.reads {
+			if fills[k.typ] {
+				continue
+			}
 			if _, ok := reads[k]; !ok {
 				reads[k] = c.FuncName(d) + " @" + c.PosStr(pos)
 			}
